@@ -55,6 +55,17 @@ Definition radd (a b : res ext) : res ext := u <- a ;; v <- b ;; Ok (eadd u v).
 (* ------------------------------------------------------------------ syntax *)
 (* One constructor per Functional class of the anchors.  Vectors stored in a
    node (translation, linear term, multiplier) are full-length lists. *)
+(* an abstract pair of mutually conjugate leaves given by its observables (side true / side false are
+   each other's convex_conj): used for leaves whose formulas live outside this file (GroupL1Norm <->
+   IndicatorGroupL1UnitBall on power spaces, C08/Group.v).  The theorems take the pair's own consistency
+   ([pair_ok], C08/Rules.v) as part of [wf] and every concrete pair used by the harness is proved to satisfy it. *)
+Record cpair := {
+  pv : bool -> list T -> list T -> res ext;              (* value of the side on the space with weights w *)
+  pp : bool -> list T -> T -> list T -> res (list T);    (* proximal *)
+  pg : bool -> list T -> list T -> res (list T);         (* gradient *)
+  ptag : bool -> nat;                                    (* class tag of the side (Corr.shape) *)
+  pw : list T -> bool }.                                 (* weights on which the pair lives (e.g. a power space) *)
+
 Inductive fexpr :=
 | FLp (p : pexp)                    (* L1Norm / L2Norm / LpNorm(inf) *)
 | FIndBall (p : pexp)               (* IndicatorLpUnitBall(exponent p) *)
@@ -75,8 +86,9 @@ Inductive fexpr :=
 | FDefConj (f : fexpr)              (* FunctionalDefaultConvexConjugate *)
 | FBreg (q : fexpr)                 (* BregmanDistance: wraps its private QuadraticPerturb q (see [bregman]);
                                        delegates _call/convex_conj/proximal/gradient, but is flagged nonlinear *)
-| FSep2 (k : nat) (f g : fexpr).    (* SeparableSum(f, g): f on the first k entries, g on the rest;
+| FSep2 (k : nat) (f g : fexpr)    (* SeparableSum(f, g): f on the first k entries, g on the rest;
                                        SeparableSum(f1, f2, f3) = FSep2 k1 f1 (FSep2 k2 f2 f3) *)
+| FPair (b : bool) (P : cpair).     (* one side of an abstract conjugate pair *)
 
 (* ------------------------------------------------------------ constructors *)
 (* the [linear=] flag each class passes to Operator.__init__ *)
@@ -89,7 +101,7 @@ Fixpoint is_linear (e : fexpr) : bool :=
   | FRightVec _ f => is_linear f
   | FSum f g => is_linear f && is_linear g
   | FScalarSum f c => is_linear f && (c =? nzero)
-  | FTransl _ _ | FInfConv _ _ | FBreg _ => false
+  | FTransl _ _ | FInfConv _ _ | FBreg _ | FPair _ _ => false
   | FQuadPert f a _ c => is_linear f && (a =? nzero) && (c =? nzero)
   | FDefConj _ => false
   | FSep2 _ f g => is_linear f && is_linear g
@@ -154,6 +166,7 @@ Fixpoint value (e : fexpr) (w x : list T) : res ext :=
   | FBreg q => value q w x
   | FSep2 k f g =>
       radd (value f (firstn k w) (firstn k x)) (value g (skipn k w) (skipn k x))
+  | FPair b P => pv P b w x
   end.
 
 (* ----------------------------------------------------------- convex_conj *)
@@ -205,6 +218,7 @@ Fixpoint cconj (w : list T) (e : fexpr) : res fexpr :=
   | FDefConj f => Ok f
   | FBreg q => cconj w q
   | FSep2 k f g => f' <- cconj (firstn k w) f ;; g' <- cconj (skipn k w) g ;; Ok (FSep2 k f' g')
+  | FPair b P => Ok (FPair (negb b) P)
   end.
 
 (* BregmanDistance(f, p, g): all three observables delegate to this QuadraticPerturb *)
@@ -292,6 +306,7 @@ Fixpoint prox (e : fexpr) (w : list T) (sigma : T) (x : list T) : res (list T) :
   | FSep2 k f g =>
       p <- prox f (firstn k w) sigma (firstn k x) ;;
       q <- prox g (skipn k w) sigma (skipn k x) ;; Ok (p ++ q)
+  | FPair b P => pp P b w sigma x
   end.
 
 (* ---------------------------------------------------------------- gradient *)
@@ -324,6 +339,7 @@ Fixpoint grad (e : fexpr) (w x : list T) : res (list T) :=
   | FSep2 k f g =>
       p <- grad f (firstn k w) (firstn k x) ;;
       q <- grad g (skipn k w) (skipn k x) ;; Ok (p ++ q)
+  | FPair b P => pg P b w x
   end.
 
 End M.
